@@ -296,7 +296,8 @@ func (c *Ctx) globalWrittenOutsideInit(g *ssa.Global) []ssa.Instruction {
 	return out
 }
 
-// fetchHelpers returns functions in the rules implementation package returning (*State, error) that call Store.Fetch.
+// fetchHelpers returns functions in the rules implementation package returning (*State, error) that call Store.Fetch,
+// directly or through one inner package helper (which itself does not return a state).
 func (c *Ctx) fetchHelpers(s *Slashing, state *types.Named) []*ssa.Function {
 	var out []*ssa.Function
 	for _, fn := range c.P.ModuleFuncs() {
@@ -311,11 +312,79 @@ func (c *Ctx) fetchHelpers(s *Slashing, state *types.Named) []*ssa.Function {
 		if !ok || !types.Identical(pt.Elem(), state) {
 			continue
 		}
-		if len(Calls(fn, func(ci ssa.CallInstruction) bool { return ci.Common().StaticCallee() == s.StoreFetch })) > 0 {
+		if fs := c.fetchSiteOf(s, fn); fs != nil {
 			out = append(out, fn)
 		}
 	}
 	return out
+}
+
+// fetchSite describes how a fetch helper reaches the store's Fetch.
+type fetchSite struct {
+	Call      ssa.CallInstruction // the call in the helper: Store.Fetch itself, or the inner helper
+	Inner     *ssa.Function       // nil if the helper calls Fetch directly
+	FetchCall ssa.CallInstruction // the Store.Fetch call (in the helper or in Inner)
+}
+
+func (c *Ctx) fetchSiteOf(s *Slashing, fn *ssa.Function) *fetchSite {
+	direct := Calls(fn, func(ci ssa.CallInstruction) bool { return ci.Common().StaticCallee() == s.StoreFetch })
+	if len(direct) > 0 {
+		return &fetchSite{Call: direct[0], FetchCall: direct[0]}
+	}
+	for _, ci := range Calls(fn, func(ci ssa.CallInstruction) bool {
+		g := ci.Common().StaticCallee()
+		return g != nil && g.Blocks != nil && !ci.Common().IsInvoke() && prog.PkgPathOf(g) == s.Pkg.Pkg.Path() && g != fn
+	}) {
+		g := ci.Common().StaticCallee()
+		if r := g.Signature.Results(); r.Len() >= 1 {
+			if _, isPtr := r.At(0).Type().(*types.Pointer); isPtr {
+				continue // another state-returning helper: analysed on its own
+			}
+		}
+		inner := Calls(g, func(c2 ssa.CallInstruction) bool { return c2.Common().StaticCallee() == s.StoreFetch })
+		if len(inner) == 1 {
+			return &fetchSite{Call: ci, Inner: g, FetchCall: inner[0]}
+		}
+	}
+	return nil
+}
+
+// fetchKey returns the public-key value (in the helper's frame) and the action global of the key the helper fetches under.
+func (c *Ctx) fetchKey(s *Slashing, fn *ssa.Function) (pk ssa.Value, action *ssa.Global, why string) {
+	fs := c.fetchSiteOf(s, fn)
+	if fs == nil {
+		return nil, nil, "no fetch"
+	}
+	if fs.Inner == nil {
+		return keyBuild(fn, fs.FetchCall.Common().Args[2])
+	}
+	p2, a2, why := keyBuildVal(fs.Inner, fs.FetchCall.Common().Args[2], 0)
+	if why != "" {
+		return nil, nil, why
+	}
+	mapBack := func(v ssa.Value) ssa.Value {
+		if q, ok := v.(*ssa.Parameter); ok {
+			for i, qq := range fs.Inner.Params {
+				if qq == q && i < len(fs.Call.Common().Args) {
+					return fs.Call.Common().Args[i]
+				}
+			}
+		}
+		return v
+	}
+	if _, isParam := p2.(*ssa.Parameter); !isParam {
+		return nil, nil, "the inner fetch helper does not build the key from its own parameter"
+	}
+	pkv, av := mapBack(p2), mapBack(a2)
+	ld, ok := av.(*ssa.UnOp)
+	if !ok {
+		return nil, nil, "key suffix is not a load of a package-level action value"
+	}
+	g, ok := ld.X.(*ssa.Global)
+	if !ok {
+		return nil, nil, "key suffix is not a load of a package-level action value"
+	}
+	return pkv, g, ""
 }
 
 // FetchHelperRules: C06.O5 rules.errors / C11.O4 -1 convention / C01.O9 key for the fetch helpers of one kind.
@@ -331,6 +400,15 @@ func (c *Ctx) FetchHelperRules(prop string, s *Slashing, kind string) *ssa.Globa
 	c.R.Floor(rule, "fetch helpers ("+kind+")", len(fhs), 1)
 	var action *ssa.Global
 	for _, fn := range fhs {
+		if fs := c.fetchSiteOf(s, fn); fs != nil && fs.Inner != nil {
+			if g := c.fetchHelperTwoLevel(prop, s, kind, state, fn, fs); g != nil {
+				if action != nil && action != g {
+					c.R.Fail(ruleKey, Fn(fn)+":action", c.Pos(fs.Call), "fetch helpers of one kind use different action values", "one action per record kind", nil)
+				}
+				action = g
+			}
+			continue
+		}
 		fetchCalls := Calls(fn, func(ci ssa.CallInstruction) bool { return ci.Common().StaticCallee() == s.StoreFetch })
 		if len(fetchCalls) != 1 {
 			c.R.Unknown(rule, Fn(fn), c.P.FuncPos(fn), "fetch helper calls the store's Fetch more than once")
@@ -498,6 +576,278 @@ func (c *Ctx) FetchHelperRules(prop string, s *Slashing, kind string) *ssa.Globa
 		}
 	}
 	return action
+}
+
+// fetchHelperTwoLevel: the obligations of FetchHelperRules for a helper H that owns the state object and delegates
+// fetch+decode to an inner helper G(ctx, pubKey, action, decoder) (found bool, err error):
+//
+//	G: key = pubKey || action; Decode(data of Fetch) on its decoder parameter only below [fetch err == nil];
+//	   (true, nil) only past [decode err == nil]; (false, nil) only below the not-found edge; every other return carries an
+//	   error value that is known non-nil where it is returned;
+//	H: passes its own state object as decoder; writes -1 into every field exactly below [found == false]; nil error only
+//	   past [G err == nil]; returns that state object.
+func (c *Ctx) fetchHelperTwoLevel(prop string, s *Slashing, kind string, state *types.Named, H *ssa.Function, fs *fetchSite) *ssa.Global {
+	rule := "C06.O5 rules.errors"
+	ruleKey := homeProp(kind) + ".O9 key"
+	rule4 := "C11.O4 none-is-minus-one"
+	G := fs.Inner
+	hc := fs.Call
+	fc := fs.FetchCall
+	// ---- key
+	pk, g, why := c.fetchKey(s, H)
+	if why != "" {
+		c.R.Fail(ruleKey, Fn(H), c.Pos(hc), "database key: "+why, "key = pubKey || action", nil)
+		return nil
+	}
+	if p, ok := pk.(*ssa.Parameter); !ok || p.Parent() != H {
+		c.R.Fail(ruleKey, Fn(H), c.Pos(hc), "the key prefix is not the helper's public-key parameter: "+an.Term(pk), "key = pubKey parameter || action", nil)
+		return nil
+	}
+	c.R.OK(ruleKey, Fn(H), c.Pos(hc), "key = "+an.Term(pk)+" || "+g.Name()+" (built in "+Fn(G)+")")
+	// ---- G's shape
+	if r := G.Signature.Results(); r.Len() != 2 || !isErrorType(r.At(1).Type()) {
+		c.R.Unknown(rule, Fn(G), c.P.FuncPos(G), "the inner fetch helper does not return (found, error)")
+		return g
+	}
+	var fetchErr, fetchData ssa.Value
+	for _, r := range *fc.Value().Referrers() {
+		if ex, ok := r.(*ssa.Extract); ok {
+			if ex.Index == 1 {
+				fetchErr = ex
+			} else {
+				fetchData = ex
+			}
+		}
+	}
+	if fetchErr == nil {
+		c.R.Fail(rule, Fn(G), c.Pos(fc), "the error result of Fetch is discarded", "fetch error is examined", nil)
+		return g
+	}
+	// decode: an invoke of Decode(data) on a parameter of G
+	var dc ssa.CallInstruction
+	nd := 0
+	for _, ci := range Calls(G, func(ci ssa.CallInstruction) bool {
+		cc := ci.Common()
+		if cc.IsInvoke() {
+			return cc.Method.Name() == "Decode"
+		}
+		f := cc.StaticCallee()
+		return f != nil && f.Name() == "Decode" && f.Signature.Recv() != nil
+	}) {
+		dc = ci
+		nd++
+	}
+	if nd != 1 {
+		c.R.Unknown(rule, Fn(G)+":decode", c.P.FuncPos(G), fmt.Sprintf("expected exactly one decode call in the inner fetch helper, found %d", nd))
+		return g
+	}
+	var decRecv, decData ssa.Value
+	if dc.Common().IsInvoke() {
+		decRecv = dc.Common().Value
+		if len(dc.Common().Args) == 1 {
+			decData = dc.Common().Args[0]
+		}
+	} else if len(dc.Common().Args) == 2 {
+		decRecv, decData = dc.Common().Args[0], dc.Common().Args[1]
+	}
+	dp, isParam := decRecv.(*ssa.Parameter)
+	if !isParam || decData != fetchData {
+		c.R.Fail(rule, Fn(G)+":decode", c.Pos(dc), "the record decoded is not the data returned by Fetch, or not decoded into the caller's object", "decoder.Decode(data from Fetch)", nil)
+		return g
+	}
+	decodeErrs := map[ssa.Value]bool{}
+	for _, e := range errValuesOfCall(dc) {
+		decodeErrs[e] = true
+	}
+	ferrs := map[ssa.Value]bool{fetchErr: true}
+	if x, path := an.Cut(an.CutQuery{From: an.Entry(G), Target: func(i ssa.Instruction) bool { return i == dc.(ssa.Instruction) },
+		AcceptEdge: func(b *ssa.BasicBlock, i int, a *an.Atom) bool { return errNilAtom(a, ferrs) }}); x != nil {
+		c.R.Fail(rule, Fn(G)+":decode", c.Pos(dc), "the record is decoded although Fetch failed", "Decode only below [fetch err == nil]", an.PathString(c.Pos, path))
+	}
+	notFoundStr := ""
+	isNotFound := func(a *an.Atom) bool {
+		if a == nil {
+			return false
+		}
+		if a.Op == "==" {
+			for _, side := range [][2]ssa.Value{{a.LV, a.RV}, {a.RV, a.LV}} {
+				call, ok := side[0].(*ssa.Call)
+				if !ok || !call.Call.IsInvoke() || call.Call.Method.Name() != "Error" || call.Call.Value != fetchErr {
+					continue
+				}
+				if k, ok := side[1].(*ssa.Const); ok && k.Value != nil && k.Value.Kind() == constant.String {
+					notFoundStr = constant.StringVal(k.Value)
+					return true
+				}
+			}
+		}
+		if a.Op == "true" {
+			if call, ok := a.LV.(*ssa.Call); ok {
+				if f := call.Call.StaticCallee(); f != nil && (f.String() == "errors.Is" || f.String() == "github.com/pkg/errors.Is") {
+					return unwrapErr(call.Call.Args[0]) == fetchErr
+				}
+			}
+		}
+		return false
+	}
+	errNonNil := func(a *an.Atom, e ssa.Value) bool {
+		if a == nil || a.Op != "!=" {
+			return false
+		}
+		return (a.LV == e && isNilConst(a.RV)) || (a.RV == e && isNilConst(a.LV))
+	}
+	badG := 0
+	for _, ret := range an.Returns(G) {
+		target := ssa.Instruction(ret)
+		ev := an.Result(ret, 1)
+		found := an.Result(ret, 0)
+		fk, isK := found.(*ssa.Const)
+		if !isK {
+			badG++
+			c.R.Unknown(rule, Fn(G), c.Pos(ret), "the inner fetch helper returns a computed 'found' value")
+			continue
+		}
+		if isNilConst(unwrapErr(ev)) {
+			// success returns
+			var accept func(a *an.Atom) bool
+			if an.Term(fk) == "true" {
+				accept = func(a *an.Atom) bool { return errNilAtom(a, decodeErrs) }
+			} else {
+				accept = isNotFound
+			}
+			if x, path := an.Cut(an.CutQuery{From: an.Entry(G), Target: func(i ssa.Instruction) bool { return i == target },
+				AcceptEdge: func(b *ssa.BasicBlock, i int, a *an.Atom) bool { return accept(a) }}); x != nil {
+				badG++
+				c.R.Fail(rule, Fn(G), c.Pos(ret), "the inner fetch helper can report (found="+an.Term(fk)+", no error) without a decoded record / without a definite 'not found'", "(true, nil) only past [decode err == nil]; (false, nil) only below [fetch err is 'not found']", an.PathString(c.Pos, path))
+			}
+			continue
+		}
+		// failure returns: the error value must be known non-nil here (a wrapped nil error is nil: the caller would read
+		// 'no error, not found' = 'nothing signed yet')
+		inner := unwrapErr(ev)
+		fresh := false
+		for k := 0; k < 4; k++ {
+			call, ok := inner.(*ssa.Call)
+			if !ok || call.Call.StaticCallee() == nil {
+				break
+			}
+			name := call.Call.StaticCallee().String()
+			if name == "fmt.Errorf" || name == "errors.New" || name == "github.com/pkg/errors.New" || name == "github.com/pkg/errors.Errorf" {
+				fresh = true
+				break
+			}
+			if (name == "github.com/pkg/errors.Wrap" || name == "github.com/pkg/errors.Wrapf" || name == "github.com/pkg/errors.WithStack" || name == "github.com/pkg/errors.WithMessage") && len(call.Call.Args) > 0 {
+				inner = unwrapErr(call.Call.Args[0]) // Wrap(e) is nil exactly when e is
+				continue
+			}
+			break
+		}
+		if fresh {
+			continue
+		}
+		if an.Term(fk) == "true" {
+			badG++
+			c.R.Fail(rule, Fn(G), c.Pos(ret), "the inner fetch helper reports found together with an error", "found only on success", nil)
+			continue
+		}
+		if x, path := an.Cut(an.CutQuery{From: an.Entry(G), Target: func(i ssa.Instruction) bool { return i == target },
+			AcceptEdge: func(b *ssa.BasicBlock, i int, a *an.Atom) bool { return errNonNil(a, inner) }}); x != nil {
+			badG++
+			c.R.Fail(rule, Fn(G), c.Pos(ret), "a failure return of the inner fetch helper carries an error value that is not known to be non-nil there ("+an.Term(inner)+"): wrapped nil is nil, and the caller then reads 'no record' = 'nothing signed yet'", "failure returns carry the error that was tested non-nil", an.PathString(c.Pos, path))
+		}
+	}
+	if badG == 0 {
+		c.R.OK(rule, Fn(G), c.P.FuncPos(G), "(true, nil) only past a successful decode of the fetched record; (false, nil) only below the 'not found' edge; failures carry a non-nil error")
+	}
+	if notFoundStr != "" {
+		c.notFoundProducer(prop, s, notFoundStr)
+	}
+	// ---- H
+	// the decoder handed to G is H's own fresh state object
+	var decArg ssa.Value
+	for i, q := range G.Params {
+		if q == dp && i < len(hc.Common().Args) {
+			decArg = hc.Common().Args[i]
+		}
+	}
+	if mi, ok := decArg.(*ssa.MakeInterface); ok {
+		decArg = mi.X
+	}
+	stObj, isAlloc := decArg.(*ssa.Alloc)
+	if !isAlloc || namedOf(stObj.Type()) != state {
+		c.R.Fail(rule, Fn(H)+":decode", c.Pos(hc), "the object handed to the inner fetch helper for decoding is not a fresh state of this kind: "+an.Term(decArg), "decode into the state object that is returned", nil)
+		return g
+	}
+	var foundV ssa.Value
+	herrs := map[ssa.Value]bool{}
+	for _, r := range *hc.Value().Referrers() {
+		if ex, ok := r.(*ssa.Extract); ok {
+			if ex.Index == 0 {
+				foundV = ex
+			} else {
+				herrs[ex] = true
+			}
+		}
+	}
+	nbad := 0
+	for _, ret := range an.Returns(H) {
+		if !isNilConst(unwrapErr(an.Result(ret, 1))) {
+			continue
+		}
+		target := ssa.Instruction(ret)
+		if x, path := an.Cut(an.CutQuery{From: an.Entry(H), Target: func(i ssa.Instruction) bool { return i == target },
+			AcceptEdge: func(b *ssa.BasicBlock, i int, a *an.Atom) bool { return errNilAtom(a, herrs) }}); x != nil {
+			nbad++
+			c.R.Fail(rule, Fn(H), c.Pos(ret), "the helper can report success although the fetch/decode helper failed", "nil error only past ["+Fn(G)+" err == nil]", an.PathString(c.Pos, path))
+		}
+		if an.Result(ret, 0) != ssa.Value(stObj) {
+			nbad++
+			c.R.Fail(rule, Fn(H)+":result", c.Pos(ret), "the state returned is not the object that was decoded", "return the decoded state", nil)
+		}
+	}
+	if nbad == 0 {
+		c.R.OK(rule, Fn(H), c.P.FuncPos(H), "nil error only past the nil-error edge of "+Fn(G)+"; returns the object that was decoded")
+	}
+	// -1 exactly below [found == false]
+	st := state.Underlying().(*types.Struct)
+	got := map[string]bool{}
+	for _, fsr := range c.stateFieldStores(s) {
+		if fsr.Fn == G {
+			c.R.Fail(rule4, Fn(G)+":"+fsr.Field, c.Pos(fsr.Store), "the inner fetch helper writes state fields itself", "only Decode and the owner's -1 initialisation write the state", nil)
+			continue
+		}
+		if fsr.Fn != H {
+			continue
+		}
+		if !an.IsConstInt(fsr.Store.Val, -1) {
+			c.R.Fail(rule4, Fn(H)+":"+fsr.Field, c.Pos(fsr.Store), "the fetch helper writes something other than -1 into the state: "+an.Term(fsr.Store.Val), "only the 'none' marker -1, below [found == false]", nil)
+			continue
+		}
+		target := ssa.Instruction(fsr.Store)
+		if x, path := an.Cut(an.CutQuery{From: an.Entry(H), Target: func(i ssa.Instruction) bool { return i == target },
+			AcceptEdge: func(b *ssa.BasicBlock, i int, a *an.Atom) bool { return a != nil && a.Op == "false" && a.LV == foundV }}); x != nil {
+			c.R.Fail(rule4, Fn(H)+":"+fsr.Field, c.Pos(fsr.Store), "the 'none' marker is written on a path other than 'record not found' (any other failure would then read as 'nothing signed')", "-1 only below [found == false]", an.PathString(c.Pos, path))
+			continue
+		}
+		if x, _ := an.Cut(an.CutQuery{From: an.Entry(H), Target: func(i ssa.Instruction) bool { return i == target },
+			AcceptEdge: func(b *ssa.BasicBlock, i int, a *an.Atom) bool { return errNilAtom(a, herrs) }}); x != nil {
+			c.R.Fail(rule4, Fn(H)+":"+fsr.Field, c.Pos(fsr.Store), "the 'none' marker is written although the fetch helper reported an error", "-1 only past [err == nil]", nil)
+			continue
+		}
+		got[fsr.Field] = true
+	}
+	var missing []string
+	for i := 0; i < st.NumFields(); i++ {
+		if !got[st.Field(i).Name()] {
+			missing = append(missing, st.Field(i).Name())
+		}
+	}
+	if len(missing) > 0 {
+		c.R.Fail(rule4, Fn(H), c.P.FuncPos(H), "when no record exists these state fields are not set to -1: "+strings.Join(missing, ","), "every field = -1 when the record is not found", nil)
+	} else {
+		c.R.OK(rule4, Fn(H), c.P.FuncPos(H), "every state field is set to -1 exactly on the not-found path")
+	}
+	return g
 }
 
 // notFoundProducer: inside Store.Fetch (and its closures) an error with message msg is created only below errors.Is(err, badger.ErrKeyNotFound),
